@@ -23,15 +23,13 @@ func (keyExchange *KeyExchange) Marshal() ([]byte, error) {
 }
 
 func (keyExchange *KeyExchange) Unmarshal(b []byte) error {
-	if len(b) > 0 {
-		// bounds checking
-		if len(b) <= 4 {
-			return errors.Errorf("KeyExchange: No sufficient bytes to decode next key exchange data")
-		}
-
-		keyExchange.DiffieHellmanGroup = binary.BigEndian.Uint16(b[0:2])
-		keyExchange.KeyExchangeData = append(keyExchange.KeyExchangeData, b[4:]...)
+	// bounds checking
+	if len(b) <= 4 {
+		return errors.Errorf("KeyExchange: No sufficient bytes to decode next key exchange data")
 	}
+
+	keyExchange.DiffieHellmanGroup = binary.BigEndian.Uint16(b[0:2])
+	keyExchange.KeyExchangeData = append(keyExchange.KeyExchangeData, b[4:]...)
 
 	return nil
 }
